@@ -13,7 +13,7 @@ for d in sorted(glob.glob('/verif/seeded/*/')):
     rows.append((name, m['property'], ', '.join(files), first, ', '.join('%s (seed %s)' % (c, seeds[c][0]) for c in m['caught_by']) or 'MISSED', m.get('strengthened', '')))
 out = ['## 9. Seeded changes written from the property text alone, and which checks catch them', '',
        'Each change was written by a fresh sub-agent that saw only the text of one property and a scratch worktree of /repo (nothing from /verif).',
-       'Ids ending in -C/-D (rounds 2-4) and -E/-F (round 5) come from later rounds: those sub-agents were additionally given the one-line summaries of all earlier changes (to avoid repeats), still nothing from /verif.',
+       'Ids ending in -C/-D (rounds 2-4), -E/-F (round 5) and -G/-H (round 6) come from later rounds: those sub-agents were additionally given the one-line summaries of all earlier changes (to avoid repeats), still nothing from /verif.',
        'Kept only after I confirmed in a scratch worktree that the change applies to HEAD, that its demonstration exits 1 with the change and 0 without, and',
        '(from the author\'s log) that the 291 baseline tests still pass.  `seeded/<id>/` holds patch.diff, demo.py, notes.md (what it needs to manifest)',
        'and meta.json (what was run, per-seed outcomes).  Quick tier, seeds 1..3 until caught; the column "generator change" names what had to be',
